@@ -29,3 +29,21 @@ Example C18_nonvacuous :
   map (@length pt) (group_vertices segs) = [5%nat; 2%nat] /\
   cnt ((1,1),(1,0)) (all_edges (group_vertices segs)) = 1%nat.
 Proof. vm_compute. split; reflexivity. Qed.
+
+(* the end-point matching test of the joining routines (generated Vector2D.is_equivalent) is an absolute coordinate test: symmetric, and
+   independent of where in the model the two points lie *)
+From Coq Require Import QArith Qabs.
+From LBG Require Import Base G0_vec G9_clean C18_equiv.
+Theorem C18_end_points_match_within_the_absolute_tolerance : forall a b tol,
+  Vector2D_is_equivalent a b tol = true <-> (Qabs (v2x a - v2x b) <= tol /\ Qabs (v2y a - v2y b) <= tol)%Q.
+Proof. exact is_equivalent_spec. Qed.
+Print Assumptions C18_end_points_match_within_the_absolute_tolerance.
+
+Theorem C18_end_point_matching_does_not_depend_on_position : forall a b t tol,
+  Vector2D_is_equivalent (mkV2 (v2x a + v2x t) (v2y a + v2y t)) (mkV2 (v2x b + v2x t) (v2y b + v2y t)) tol = Vector2D_is_equivalent a b tol.
+Proof. exact is_equivalent_translation_invariant. Qed.
+Print Assumptions C18_end_point_matching_does_not_depend_on_position.
+
+Theorem C18_end_point_matching_is_symmetric : forall a b tol, Vector2D_is_equivalent a b tol = Vector2D_is_equivalent b a tol.
+Proof. exact is_equivalent_symmetric. Qed.
+Print Assumptions C18_end_point_matching_is_symmetric.
